@@ -220,6 +220,18 @@ def streams(seed, tier):
                       "classifies as not applying (this run: %d apply, %d lack an operand, %d fail a guard); skipped: %s (EXEC.CMD spawns a process when it applies; the RAND instructions draw from an unseeded "
                       "generator when they apply: their whole post-state around the drawn value is compared with the model by the `rand` suite of C12/C13)"
                       % (per, cl.count(0), cl.count(1), cl.count(2), skipped_b)))
+    # directed: full buffers whose newest entry resembles the operand; EXEC.CMD really firing on harmless commands that succeed and that fail
+    directed = []
+    for prof in (0, 1):
+        for hdr, body in (([7, 1], [True]), ([7, 1], [False, False]), ([], [True]), ([9], [])):
+            outq = [([7, 1], [True, True]), ([2], [False]), ([3], [])]            # newest first: the newest header is [7,1]
+            for q in (outq, outq[:2], [([7, 1], [True])] * 3):
+                directed.append(case_run(prof, state(exec=[I("OUTPUT.WRITE")], ivec=[hdr, [5]], bvec=[body, [True]], output=q, int=[1], bool=[True]), 0, 1))
+        for nm_, k in (("false", 0), ("true", 0), ("false", 1)):
+            directed.append(case_run(prof, state(exec=[I("EXEC.CMD"), Z(7)], int=[k, 5], name=[nm_] * (k + 1) + ["A"], bool=[True], float=[fbits(1.0)], code=[Z(1)]), 0, 1))
+    out.append(Stream("directed-full-buffers-and-commands", "run", "frame.check", directed,
+                      "OUTPUT.WRITE onto full / nearly full OUTPUT queues whose newest header equals the header operand; EXEC.CMD applied to `true` and to `false` "
+                      "(a command that exits non-zero): nothing outside the documented footprint changes"))
     return out
 
 
